@@ -35,12 +35,12 @@ META = dict(
 DOCUMENTED_LIMIT = 128
 TARGETS = [
     # crate, grammar module regex, printer fn regex per type, enum def-path per type
-    dict(crate="kanidm_proto", mod="kanidm_proto::scim_v1::scimfilter", strict_budget=True,
+    dict(crate="kanidm_proto", mod="kanidm_proto::scim_v1::scimfilter",
          printers={"ScimFilter": r"^kanidm_proto::<scim_v1::ScimFilter as core::fmt::Display>::fmt$",
                    "ScimComplexFilter": r"^kanidm_proto::<scim_v1::ScimComplexFilter as core::fmt::Display>::fmt$"},
          enums={"ScimFilter": "kanidm_proto::scim_v1::ScimFilter", "ScimComplexFilter": "kanidm_proto::scim_v1::ScimComplexFilter"},
          const="kanidm_proto::scim_v1::SCIM_FILTER_MAX_DEPTH"),
-    dict(crate="scim_proto", mod="scim_proto::filter::scimfilter", strict_budget=True,
+    dict(crate="scim_proto", mod="scim_proto::filter::scimfilter",
          printers={"ScimFilter": r"^scim_proto::<filter::ScimFilter as alloc::string::ToString>::to_string$",
                    "ScimComplexFilter": r"^scim_proto::<filter::ScimComplexFilter as alloc::string::ToString>::to_string$"},
          enums={"ScimFilter": "scim_proto::filter::ScimFilter", "ScimComplexFilter": "scim_proto::filter::ScimComplexFilter"},
@@ -569,8 +569,6 @@ def check_target(ctx, T):
         for k, want in (("or", "Or"), ("and", "And")):
             row = lv[k][0]
             cv = {v for (_, v) in row["ctor"]}
-            lead = row["seq"][:1]
-            left_assoc = ("p", "(") in row["seq"][:6] and ("p", "@") in row["seq"]
             ctx.check(cv == {want}, "K11-precedence", gfn, f"{tag}:{n}:{k}-builds-{want}", f"\"{k}\" builds {want}",
                       f"rule {n}: the \"{k}\" alternative builds {sorted(cv)} instead of {want}")
 
